@@ -96,7 +96,7 @@ def insertByKey (x : Nat × String) : List (Nat × String) → List (Nat × Stri
   | y :: ys => if x.1 < y.1 then x :: y :: ys else y :: insertByKey x ys
 
 def fmtSig (σ : Sig) : Nat × String :=
-  if σ.msg.taproot then (σ.key, s!"{σ.key}:{σ.msg.idx}:t:{σ.msg.ht}:{σ.forOut}")
+  if σ.msg.taproot then (σ.key, s!"{σ.key}:{σ.msg.idx}:t:{σ.msg.ht}:{σ.forOut}:v{σ.sver}")
   else (σ.key, s!"{σ.key}:{σ.msg.idx}:w:{σ.msg.ht}:{σ.msg.spent.headD 0}")
 
 def fmtSigs (sigs : List Sig) : String :=
